@@ -97,6 +97,7 @@ fn run_worker(cfg: &FanCfg, w: usize, deadline: Instant, stop: &std::sync::atomi
             tail
         });
         let mut last_mark: Option<(u64, u64)> = None;
+        let mut in_harness = true;
         let mut quiet_since = Instant::now();
         let mut cpu_at_last_line = cpu_ticks(child.id());
         let mut done = false;
@@ -106,7 +107,10 @@ fn run_worker(cfg: &FanCfg, w: usize, deadline: Instant, stop: &std::sync::atomi
                 Ok(Some(l)) => {
                     quiet_since = Instant::now();
                     cpu_at_last_line = cpu_ticks(child.id());
-                    if let Some(rest) = l.strip_prefix("M ") {
+                    if l.starts_with("H ") {
+                        in_harness = true;
+                    } else if let Some(rest) = l.strip_prefix("M ") {
+                        in_harness = false;
                         let mut it = rest.split_whitespace();
                         let r = it.next().and_then(|x| x.parse().ok()).unwrap_or(0);
                         let t = it.next().and_then(|x| x.parse().ok()).unwrap_or(0);
@@ -143,7 +147,9 @@ fn run_worker(cfg: &FanCfg, w: usize, deadline: Instant, stop: &std::sync::atomi
                     // machine (other checks, compilers) cannot turn a slow trial into a "hang":
                     //   busy hang   = hang_s seconds of CPU consumed without a line of output;
                     //   blocked hang = no output for a long wall time while consuming (almost) no CPU.
-                    let hang_s = cfg.hang_s.max(1);
+                    // between "H" (a run is being generated and set up) and the first trial marker the work is the
+                    // harness's own and may legitimately take long (a thorough-tier base history): long threshold
+                    let hang_s = if in_harness { (cfg.hang_s.max(1) * 30).max(120) } else { cfg.hang_s.max(1) };
                     let used = cpu_ticks(child.id()).saturating_sub(cpu_at_last_line);
                     let quiet = quiet_since.elapsed().as_secs();
                     let busy_hang = used >= hang_s * ticks_per_s();
@@ -291,6 +297,14 @@ impl WorkerCtx {
 
     pub fn out_of_time(&self) -> bool {
         Instant::now() >= self.deadline
+    }
+
+    /// The worker is about to generate and set up run `run` (harness work: plan generation, the live history that
+    /// produces a base image). Until the next trial marker the supervisor applies the long threshold.
+    pub fn harness_phase(&self, run: u64) {
+        let mut o = std::io::stdout().lock();
+        let _ = writeln!(o, "H {run}");
+        let _ = o.flush();
     }
 
     pub fn mark(&self, run: u64, trial: u64) {
